@@ -34,7 +34,11 @@ def generated_lean(ctx):
 
 
 def _sig(v):
-    return 'loci:LinR' if '(L in R)' in v['reason'] else v['oracle']
+    # K1 concerns direct API histories on a locus with L in R (the 'ops' cases and the scripted process); a shipped model driven by its own
+    # events keeps even Opinion's PPT exact on the unchanged code, so there the same message is a new violation
+    if '(L in R)' in v['reason']:
+        return 'loci:LinR' if v.get('spec', {}).get('mode') == 'ops' or any(p.get('cls') == 'Script' for p in v.get('spec', {}).get('procs', [])) else 'loci:LinR-own-events'
+    return v['oracle']
 
 
 def _jobs(ctx):
